@@ -221,6 +221,10 @@ class Program:
                 if mm:
                     fields.append(mm.group(1))
             self.structs.setdefault(name, fields)
+            # same name in another module/crate (common::Glue vs boxworks::ds::Glue): keep every field list
+            self.structs_all = getattr(self, "structs_all", {})
+            if fields not in self.structs_all.setdefault(name, []):
+                self.structs_all[name].append(fields)
 
     # ---- lookup
     def find_fn(self, name, self_ty=None, trait=None, crate=None):
@@ -708,7 +712,10 @@ class Executor:
                 fields[k.strip()] = self.eval_operand(fn, v, st, frame)
             order = self.prog.structs.get(name)
             if order is None or set(order) != set(fields):
-                raise Unsupported("struct literal " + name)
+                alts = [o_ for o_ in getattr(self.prog, "structs_all", {}).get(name, []) if set(o_) == set(fields)]
+                if len(alts) != 1:
+                    raise Unsupported("struct literal " + name)
+                order = alts[0]
             return Agg([fields[k] for k in order])
         # enum variant / tuple struct constructor: Path(args) or Path (unit)
         if r.endswith(")"):
@@ -733,11 +740,12 @@ class Executor:
             if len(segs) >= 2 and segs[-2] in self.prog.enums and segs[-1] in self.prog.enums[segs[-2]]:
                 idx = self.prog.enums[segs[-2]][segs[-1]]
                 return Enum(idx, {idx: args} if has_args else {}, segs[-2])
-            if len(segs) == 1 and not has_args:
-                # bare variant of an imported enum (`_1 = Explicit;`): the destination's type names the enum
+            if len(segs) == 1:
+                # bare variant of an imported enum (`_1 = Explicit;`, `_2 = Exact(move _3);`): the destination's type names the enum
                 lty = _strip_generics(self.local_type(fn, lhs) or "").split("::")[-1]
                 if lty in self.prog.enums and segs[0] in self.prog.enums[lty]:
-                    return Enum(self.prog.enums[lty][segs[0]], {}, lty)
+                    idx = self.prog.enums[lty][segs[0]]
+                    return Enum(idx, {idx: args} if has_args else {}, lty)
             # tuple struct (or unit struct)
             return Agg(args)
         raise Unsupported("rvalue: " + r)
